@@ -565,6 +565,13 @@ func Exec(t *testing.T, sc *Scenario, arg json.RawMessage, prefix []int, expect 
 			res.Trace.Points = append(res.Trace.Points, pt)
 			res.Trace.Choices = append(res.Trace.Choices, choice)
 			w.Labels = append(w.Labels, acts[choice].Label)
+			if traceSteps {
+				var alts []string
+				for _, a := range acts {
+					alts = append(alts, a.Label)
+				}
+				fmt.Printf("step %d: %s   [of %v]\n", w.Step, acts[choice].Label, alts)
+			}
 			if w.Tor != nil {
 				w.PreStatus = w.Tor.VerifState().Status
 			}
@@ -622,6 +629,9 @@ func labelsOf(a []Action) []string {
 }
 
 // teardown closes the session, driving the loops through their close case.
+// traceSteps (VERIF_TRACE=1) prints every step with its alternatives (debugging aid for TestReplay).
+var traceSteps = os.Getenv("VERIF_TRACE") != ""
+
 func (w *World) teardown() {
 	w.Store.ReleaseAll()
 	vpool.ReleaseAll()
